@@ -81,4 +81,13 @@ theorem C07_render_writes_nothing_shared :
     Gen.renderPathWrites.all (fun w => Pug.Props.C08.perCallWrites.contains w) = true :=
   Pug.Props.C08.C08_render_path_writes_nothing_shared
 
+/-- **C07 (no hidden package state).** The inventory of package-level variables of pugjs, pugjs/parse, templatefunctions and the
+module root - regenerated from the Go source on every run, constant tables left out - holds nothing but the known entries
+(`Pug.Props.C08.knownPkgState`): no cache, pool, memo table, once-guard or flag has been added through which one render (or one
+process history) could reach another. The write-set theorem above covers assignments; this one covers state that is changed
+through method calls such as `sync.Map.Store` or `sync.Pool.Put`. -/
+theorem C07_package_state_inventory :
+    Gen.pkgState_ok = true ∧ Gen.pkgState.all (fun v => Pug.Props.C08.knownPkgState.contains v) = true :=
+  Pug.Props.C08.C08_package_state_inventory
+
 end Pug.Props.C07
